@@ -24,7 +24,7 @@ def _c04_min_classes():
               'singular_class/R1/zero_wanted': 300, 'singular_class/R3/zero_wanted': 100, 'interior_target/R3': 100, 'two_sided_magnitude_target/R3': 100,
               'R2/DavidsonSymEigsSolver/LargestAlge': 100, 'R2/DavidsonSymEigsSolver/SmallestAlge': 100, 'R2/DavidsonSymEigsSolver/LargestMagn': 100,
               'R2/DavidsonSymEigsSolver/SmallestMagn': 100, 'R1/PartialSVDSolver/largest': 200, 'R2/PartialSVDSolver/largest': 200,
-              'R2/LOBPCGSolver/smallest': 200})
+              'R2/LOBPCGSolver/smallest': 200, 'extreme_scale/huge': 200, 'extreme_scale/tiny': 100})
     return m
 
 
@@ -36,7 +36,7 @@ PROPS['C04'] = dict(
                'Cholesky / RegularInverse, SymGEigsShiftSolver ShiftInvert / Buckling / Cayley (library wrappers)} x {float, double, long double}, plus DavidsonSymEigsSolver, PartialSVDSolver and LOBPCGSolver in double. '
                'The spectrum is built in the variable the rule acts on (lambda, or nu = 1/(lambda-sigma), lambda/(lambda-sigma), (lambda+sigma)/(lambda-sigma); for the complex shift lambda is prescribed and the groups are '
                'picked so that the keys of nu are spaced): keys |nu|, nu, Re nu, |Im nu| on jittered grids with consecutive gaps >= 1.25 % of the spread, definite / indefinite / mixed-sign shapes, conjugate pairs for the '
-               'general family (nev never splits a pair), a class with one exactly-zero eigenvalue, scale 1e-6..1e6, pencils (M D M^T, M M^T) with cond(M) <= 3. Symmetric A = Q D Q^T, normal A = Q blockdiag Q^T. '
+               'general family (nev never splits a pair), a class with one exactly-zero eigenvalue, scale 1e-6..1e6 (plain symmetric / Hermitian solvers in regime R1 also at scales 1e+-150..250, float 1e20..1e30, where squares of eigenvalues leave the floating-point range), pencils (M D M^T, M M^T) with cond(M) <= 3. Symmetric A = Q D Q^T, normal A = Q blockdiag Q^T. '
                'n <= 24, 1 <= nev <= (n-1)/2, ncv = n (regime R1) or 2 nev + 1 <= ncv < n, default start vector, maxit 3000, tol 1e-10 (float: 64 eps). When the solver reports Successful: it returned nev '
                'values, every returned value is a genuine reference eigenvalue (distinct ones for distinct values; complex shift: the right root of the back-transformation), and the multiset of their keys equals '
                'the multiset of the keys of the nev eigenvalues the rule names (BothEnds: ceil(nev/2) largest + floor(nev/2) smallest). R1 (ncv = n) and R2 (ncv < n, one-ended targets of the symmetric / Hermitian / generalized families) are asserted strictly; '
